@@ -72,23 +72,72 @@ Proof. exact malformed_stores_nothing. Qed.
 Print Assumptions C32_malformed_stores_nothing.
 
 (** 204 is answered only if every precondition held, the stream was clean, the size accepted,
-    every candidate line parsed, and the writer — called once with ALL points of the body, in
-    order — returned nil. *)
+    every candidate line parsed, and the ENGINE (the underlying writer, behind the real
+    storage.LoggingPointsWriter if it is installed) — called once with ALL points of the body,
+    in order — returned nil; the only other way to 204 is a batch without any point, which the
+    wrapper does not pass on. *)
 Theorem C32_ok_only_after_all_stored :
   forall script q,
     r_status (handle script q) = 204%N ->
-    precheck q = None /\ u_end (q_stream q) = EndEOF /\ accepted_size q /\ q_writer q = WOk /\
+    precheck q = None /\ u_end (q_stream q) = EndEOF /\ accepted_size q /\
     (forall t, In t (candidate_lines (u_rem (q_stream q))) -> is_ok (parse_point (q_prec q) DFLT t) = true) /\
-    r_calls (handle script q) = [all_points q].
+    ((q_writer q = WOk /\ r_calls (handle script q) = [all_points q]) \/
+     (wrapped q /\ parsed_points q = [] /\ r_calls (handle script q) = [])).
 Proof. exact ok_only_after_all_stored. Qed.
 Print Assumptions C32_ok_only_after_all_stored.
 
-(** A well-formed request of accepted size: 204 iff the writer returned nil; a partial write is
-    answered 422 with the dropped count in the message; any other writer error 500. *)
-Theorem C32_writer_error_reported :
+(** ... in particular: whatever the LoggingPointsWriter's logging does (log bucket found or not,
+    finder failing, log write failing), an engine error or partial write is never turned into 204 *)
+Theorem C32_engine_error_never_204 :
+  forall script q, parsed_points q <> [] -> q_writer q <> WOk -> r_status (handle script q) <> 204%N.
+Proof.
+  intros s q Hne Hw H. destruct (ok_only_after_all_stored s q H) as (_ & _ & _ & _ & [[Hx _] | (_ & Hx & _)]); contradiction.
+Qed.
+Print Assumptions C32_engine_error_never_204.
+
+(** A well-formed request of accepted size is answered by what the LoggingPointsWriter hands
+    back ([logging_write]): 204 / 422 carrying the dropped count / 500. *)
+Theorem C32_writer_result_decides :
   forall script q,
     precheck q = None -> u_end (q_stream q) = EndEOF -> accepted_size q -> progresses q ->
     (forall t, In t (candidate_lines (u_rem (q_stream q))) -> is_ok (parse_point (q_prec q) DFLT t) = true) ->
+    let '(eff, called) := logging_write (q_logger q) (q_writer q) (length (parsed_points q)) in
+    let calls := if called then [all_points q] else [] in
+    handle script q =
+      match eff with
+      | EOk => {| r_status := 204; r_code := C_NONE; r_rejected := []; r_dropped := None; r_calls := calls |}
+      | EPartial d => {| r_status := 422; r_code := C_UNPROCESSABLE; r_rejected := []; r_dropped := Some d;
+                         r_calls := calls |}
+      | EOther => {| r_status := 500; r_code := C_INTERNAL; r_rejected := []; r_dropped := None; r_calls := calls |}
+      end.
+Proof. exact writer_error_reported. Qed.
+Print Assumptions C32_writer_result_decides.
+
+(** FULL STATEMENT of the last clause ("... or with an error that states how many points were
+    dropped"): for a well-formed accepted request whose engine write is partial (dropped = d) the
+    answer carries dropped = d.  REFUTED when the LoggingPointsWriter cannot log the failure: it
+    then returns the LOGGING error (log bucket not found / finder error / log write error)
+    instead of the original one, and the handler answers a plain 500 without the count.
+    Replayed on the real handler + real storage.LoggingPointsWriter (known finding
+    logging-writer-loses-dropped-count). *)
+Theorem C32_partial_write_reports_dropped_refuted :
+  let q := {| q_auth := true; q_prec_valid := true; q_bucket_param := true; q_gzip_header := true;
+     q_org_found := true; q_bucket_found := true; q_perm := true; q_prec := P_ns; q_limit := 0;
+     q_stream := {| u_rem := [109; 32; 102; 61; 49; 32; 49; 10]%N; u_end := EndEOF; u_eager := false; u_stall := 0 |};
+     q_writer := WPartial 2; q_logger := LWrap 1 true |} in
+  handle [] q = {| r_status := 500; r_code := C_INTERNAL; r_rejected := []; r_dropped := None;
+                   r_calls := [[([109]%N, 1%Z)]] |}.
+Proof. vm_compute. reflexivity. Qed.
+Print Assumptions C32_partial_write_reports_dropped_refuted.
+
+(** Strongest true weakening: without the wrapper, or when its logging works (log bucket found
+    and log write succeeds): 204 iff the engine returned nil; a partial write is answered 422
+    with the dropped count in the message; any other engine error 500. *)
+Theorem C32_writer_error_reported_partial :
+  forall script q,
+    precheck q = None -> u_end (q_stream q) = EndEOF -> accepted_size q -> progresses q ->
+    (forall t, In t (candidate_lines (u_rem (q_stream q))) -> is_ok (parse_point (q_prec q) DFLT t) = true) ->
+    (q_logger q = LNone \/ (exists ok, q_logger q = LWrap 0 ok /\ ok = true) /\ parsed_points q <> []) ->
     handle script q =
       match q_writer q with
       | WOk => {| r_status := 204; r_code := C_NONE; r_rejected := []; r_dropped := None; r_calls := [all_points q] |}
@@ -97,11 +146,12 @@ Theorem C32_writer_error_reported :
       | WErr => {| r_status := 500; r_code := C_INTERNAL; r_rejected := []; r_dropped := None;
                    r_calls := [all_points q] |}
       end.
-Proof. exact writer_error_reported. Qed.
-Print Assumptions C32_writer_error_reported.
+Proof. exact writer_error_reported_plain. Qed.
+Print Assumptions C32_writer_error_reported_partial.
 
-(** The writer is called at most once, only for a request that passed every check with no
-    malformed line, and then with all points; the answer is 204 iff it returned nil. *)
+(** The engine is called at most once with the batch, only for a request that passed every
+    check with no malformed line, and then with all points; the answer is 204 iff it returned
+    nil — with or without the LoggingPointsWriter. *)
 Theorem C32_nothing_stored_unless_all_handed_over :
   forall script q,
     r_calls (handle script q) <> [] ->
@@ -119,7 +169,7 @@ Example C32_before_fix_counterexample :
   res3 (read_all [] (batch_reader 8 u) []) = (u_rem u, None, false) /\
   r_status (handle [] {| q_auth := true; q_prec_valid := true; q_bucket_param := true; q_gzip_header := true;
      q_org_found := true; q_bucket_found := true; q_perm := true; q_prec := P_ns; q_limit := 8;
-     q_stream := u; q_writer := WOk |}) = 204%N.
+     q_stream := u; q_writer := WOk; q_logger := LNone |}) = 204%N.
 Proof. vm_compute. repeat split; reflexivity. Qed.
 
 (** Non-vacuity: a three-line body with one malformed line under a generous limit is answered
@@ -128,7 +178,7 @@ Proof. vm_compute. repeat split; reflexivity. Qed.
 Example C32_nonvacuous :
   let mk body w := {| q_auth := true; q_prec_valid := true; q_bucket_param := true; q_gzip_header := true;
      q_org_found := true; q_bucket_found := true; q_perm := true; q_prec := P_ns; q_limit := 100;
-     q_stream := {| u_rem := body; u_end := EndEOF; u_eager := false; u_stall := 2 |}; q_writer := w |} in
+     q_stream := {| u_rem := body; u_end := EndEOF; u_eager := false; u_stall := 2 |}; q_writer := w; q_logger := LWrap 0 true |} in
   (* "m f=1 1\nbad\nn f=2 2\n" *)
   handle [(3, 2); (0, 0)]%nat (mk [109;32;102;61;49;32;49;10; 98;97;100;10; 110;32;102;61;50;32;50;10]%N WOk)
     = {| r_status := 400; r_code := C_INVALID; r_rejected := [[98;97;100]%N]; r_dropped := None; r_calls := [] |}
